@@ -349,6 +349,56 @@ def expect : FieldVal → Option J
 def propOK (leafOK : Field → J → Bool) (ra : Option Rule) (fvs : List (Field × FieldVal)) (n : Str) (j : J) : Bool :=
   fvs.any fun p => Serde.written p.1 && decide (Serde.name Serde.applyField ra p.1.ident p.1.rename = some n) && leafOK p.1 j
 
+/-! ## values of enums: what serde writes per representation, and validation of the shapes the derive builds -/
+
+/-- JSON values as far as the validation of an enum schema looks at them: a string, an object, or anything else (opaque) -/
+inductive JV
+  | str (s : Str)
+  | obj (kvs : List (Str × JV))
+  | other (n : Nat)
+
+def lookupV (k : Str) : List (Str × JV) → Option JV
+  | [] => none
+  | (k', v) :: rest => if k' = k then some v else lookupV k rest
+
+/-- what serde writes for a variant in each representation, given its serialized content -/
+def Serde.serVariant : Serde.Wire → JV → JV
+  | .bare tag, _ => .str tag
+  | .keyed tag, c => .obj [(tag, c)]
+  | .inline t tag, c => (match c with | .obj kvs => .obj ((t, .str tag) :: kvs) | o => o)
+  | .tagOnly t tag, _ => .obj [(t, .str tag)]
+  | .adjacent t tag c', c => .obj [(t, .str tag), (c', c)]
+  | .content, c => c
+
+/-- JSON Schema validation for the shapes the derive builds; `leaf` judges the opaque ones (`<T as Schema>::schema()`, user functions, arrays) -/
+def validates (leaf : Sch → JV → Bool) : Nat → Sch → JV → Bool
+  | 0, _, _ => false
+  | f + 1, .obj props flat, .obj kvs =>
+    flat.isEmpty && props.all fun p => match lookupV p.1 kvs with
+      | some j => validates leaf f p.2.2 j
+      | none => !p.2.1
+  | _ + 1, .obj _ _, _ => false
+  | _ + 1, .enm names, .str s => names.contains s
+  | _ + 1, .enm _, _ => false
+  | f + 1, .oneOf ss, j => (ss.filter fun s => validates leaf f s j).length == 1
+  | f + 1, .anyOf ss, j => ss.any fun s => validates leaf f s j
+  | _ + 1, s, j => leaf s j
+
+/-- how deep the wrapper of a representation nests the content -/
+def Serde.Wire.depth : Serde.Wire → Nat
+  | .keyed _ | .adjacent _ _ _ => 1
+  | _ => 0
+
+/-- a written variant of an externally tagged enum: its serialized name, whether it is a unit variant, the schema of its content -/
+structure ExtVariant where
+  tag : Str
+  unit : Bool
+  content : Sch
+
+def ExtVariant.schema (v : ExtVariant) : Sch := if v.unit then .enm [v.tag] else .obj [(v.tag, true, v.content)] []
+def ExtVariant.value (v : ExtVariant) (cj : JV) : JV := if v.unit then .str v.tag else .obj [(v.tag, cj)]
+
+
 /-! ## reading a schema shape -/
 
 /-- (name, required) of the direct properties of an object schema -/
